@@ -23,8 +23,9 @@ def write_evidence(ctx, level):
         "violations": len(ctx.violations), "known_findings": ctx.known, "model_drift": ctx.drift,
         "notes": ctx.notes,
     }
-    os.makedirs(os.path.join(core.VERIF, "evidence"), exist_ok=True)
-    p = os.path.join(core.VERIF, "evidence", ctx.pid + ".json")
+    edir = os.environ.get("VERIF_EVIDENCE_DIR") or os.path.join(core.VERIF, "evidence")   # bin/vmatrix / bin/vmut point this elsewhere: evidence/ is for /repo itself
+    os.makedirs(edir, exist_ok=True)
+    p = os.path.join(edir, ctx.pid + ".json")
     tmp = p + ".tmp"
     with open(tmp, "w") as f:
         json.dump(ev, f, indent=1, default=str)
